@@ -271,6 +271,9 @@ func c08Gen(t *rapid.T) *c08Case {
 	n := target + rapid.IntRange(0, 3).Draw(t, "extra")
 	seen := map[uint64]bool{}
 	salt := rapid.Uint64().Draw(t, "salt")
+	// share of deleted keys: mostly 1 in 9; sometimes a half or a third, so that a node listed item by item
+	// (fewer than 256 live keys) carries far more tombstones than live keys
+	tombEvery := uint64(rapid.SampledFrom([]int{9, 9, 9, 2, 3, 9, 2}).Draw(t, "tombevery"))
 	x := salt | 1
 	next := func() uint64 { x ^= x << 13; x ^= x >> 7; x ^= x << 17; return x }
 	for len(c.Final) < n {
@@ -293,7 +296,7 @@ func c08Gen(t *rapid.T) *c08Case {
 		}
 		seen[h] = true
 		it := c08Item{Hash: h, Ver: int32(next()%50) + 1, Vhash: uint16(next()), Off: uint32(next() % (1 << 20))}
-		if next()%9 == 0 {
+		if next()%tombEvery == 0 {
 			it.Ver = -it.Ver
 		}
 		if next()%17 == 0 {
@@ -399,6 +402,9 @@ func TestVerif_C08_Tree(t *testing.T) {
 		}
 		if live > 256 {
 			labels = append(labels, "count>256")
+		}
+		if len(c.Final)-live > 64 {
+			labels = append(labels, "tombstones>64")
 		}
 		dl := false
 		for _, s := range append(append([]c08Step{}, c.A...), c.B...) {
